@@ -80,7 +80,7 @@ func TestVerifC10(t *testing.T) {
 		}
 		return fmt.Sprintf("(Some (BL %s %d %s %s))", q, b.GetView(), c10qB(b.GetCommands() != nil), c10qB(b.GetTimestamp() != nil))
 	}
-	allGuards := "(G T T T T T T T T T)"
+	allGuards := "(G T T T T T T T T T T)"
 	n := 0
 	for _, want := range wants {
 		// single replies, and pairs (the genuine block among hostile ones, in both map positions)
